@@ -11,6 +11,11 @@ NA = {
 }
 
 CHECKS = {
+    'C01': dict(
+        category='other', design_ref='DESIGN.md §5 C01',
+        technique='MIR path/ordering rules over Parser::parse (dominance, mandatory branch edges, provenance of the shared error vector) + lexer/parser ATN facts + impl table + audited panic ledger of the hand-written parser',
+        text='Decides the structural necessary conditions of "program or positioned errors, never a panic": Ok only when the merged error vector is empty; listeners with the shared vector installed before start(); the tree is walked only when no syntax error was recorded (error contexts have a panicking default visitor); start consumes EOF in the ATN and in the generated code; placeholders only after a recorded error; every panic edge of the hand-written parser audited; rendering starts with a literal. Hangs, stack depth and the numeric line/column values are not decided.',
+        note='antlr4rust and the generated lexer/parser are trusted apart from the extracted facts'),
     'C04': dict(
         category='other', design_ref='DESIGN.md §5 C04',
         technique='grammar-automaton analysis (serialized ATN decoded from the compiled program, path enumeration per rule) + agreement of generated Rust constants with it + provenance rules over the visitor',
